@@ -45,10 +45,35 @@ OPTS = [
 ]
 
 
+EXT_TYPES = [("time.Duration", "time"), ("json.RawMessage", "encoding/json"), ("yaml.Node", "gopkg.in/yaml.v3"), ("big.Int", "math/big"), ("url.URL", "net/url"),
+             ("regexp.Regexp", "regexp"), ("fmt.Stringer", "fmt"), ("reflect.Kind", "reflect"), ("strings.Builder", "strings"),
+             ("types.SerializableDate", "github.com/atombender/go-jsonschema/pkg/types"), ("utf8.AcceptRange", None)]
+EXT_SIBLINGS = [{"type": "string", "minLength": 1}, {"type": "string", "pattern": "^a"}, {"type": "string", "format": "date-time"}, {"type": "string", "format": "date"},
+                {"enum": ["a", "b"]}, {"type": "number", "multipleOf": 0.5}, {"anyOf": [{"type": "object", "properties": {"p": {"type": "string"}}}, {"type": "object", "properties": {"q": {"type": "integer"}}}]},
+                {"type": "string"}]
+
+
+def extension_schemas():
+    """the goJSONSchema extension (a Go type named by the schema, with the imports it needs) next to properties whose checks make the generator import
+    packages itself - the same package from both sides included - at a property, at an array item and at a definition"""
+    out = []
+    for ty, imp in EXT_TYPES:
+        if imp is None:
+            continue
+        for sib in EXT_SIBLINGS:
+            ext = {"goJSONSchema": {"type": ty, "imports": [imp]}}
+            out.append({"type": "object", "required": ["s"], "properties": {"s": sib, "x": dict(ext, description="a custom type")}})
+        ext = {"goJSONSchema": {"type": ty, "imports": [imp]}}
+        out.append({"type": "object", "properties": {"l": {"type": "array", "items": ext, "minItems": 1}, "x": dict(ext), "y": {"goJSONSchema": {"type": ty, "imports": [imp], "nillable": True}}}})
+        out.append({"type": "object", "properties": {"a": {"$ref": "#/$defs/D"}, "s": {"type": "string", "maxLength": 3}}, "required": ["a"],
+                    "$defs": {"D": {"type": "object", "properties": {"x": dict(ext, **{"goJSONSchema": dict(ext["goJSONSchema"], identifier="Custom")})}, "required": ["x"]}}})
+    return out
+
+
 def run(ctx):
     ctx.proof_step(PROPS_FILE)
     rng = ctx.rng
-    schemas = []
+    schemas = [("extension-types", s) for s in extension_schemas()]
     for fam, lst in (("strings", c06.systematic()[::5]), ("numbers", c05.e2e_systematic(ctx)[::9] + c05.e2e_fractional()[::4]), ("arrays", c07.systematic()[::6]),
                      ("enums", c08.systematic()[::4]), ("defaults", [x[0] for x in c09.systematic()[::6]]), ("special", c12.SPECIAL)):
         schemas += [(fam, s) for s in lst]
@@ -71,6 +96,8 @@ def run(ctx):
     meta = []
     for i, (fam, sc) in enumerate(schemas):
         optsets = [OPTS[i % len(OPTS)], OPTS[(i * 7 + 3) % len(OPTS)]] if ctx.tier == "quick" else OPTS
+        if fam == "extension-types" and ctx.tier == "quick":
+            optsets = [{}, {"extra_imports": True}]
         for oi, opts in enumerate(optsets):
             cid = "p%do%d" % (i, oi)
             doc = with_texts(sc, rng) if (i + oi) % 2 == 0 else sc
